@@ -400,3 +400,94 @@ fn c03_union_coupon_input_keeps_lg_k() {
     kani::cover!(merged == 1 && lg_src > lg_max);
     core::mem::forget((s, u));
 }
+
+// ---------------------------------------------------------------------------------------------
+// Coupon-mode inputs, second half of the composition with c03_union_coupon_input_keeps_lg_k: the helpers
+// that c03_union_coupon_input_keeps_lg_k replaces by recorders replay / copy EVERY coupon of the source.
+// The receiving update() is a recorder (its step semantics are C02's harnesses).
+// ---------------------------------------------------------------------------------------------
+static mut CR_REC: [u32; 9] = [0; 9];
+static mut CR_N: usize = 0;
+fn cr_record(c: u32) {
+    unsafe {
+        if CR_N < 9 {
+            CR_REC[CR_N] = c;
+        }
+        CR_N += 1;
+    }
+}
+pub(crate) fn cr_update_with_coupon(_s: &mut HllSketch, c: u32) {
+    cr_record(c)
+}
+pub(crate) fn cr_array8_update(_a: &mut Array8, c: u32) {
+    cr_record(c)
+}
+fn cr_source(as_set: bool) -> (Mode, [u32; 8]) {
+    let slots: [u32; 8] = kani::any();
+    let mut c = crate::hll::container::Container::new(3);
+    let mut n = 0;
+    let mut i = 0;
+    while i < 8 {
+        c.coupons[i] = slots[i];
+        if slots[i] != 0 {
+            n += 1;
+        }
+        i += 1;
+    }
+    c.len = n;
+    unsafe {
+        CR_N = 0;
+    }
+    let t = HllType::Hll4;
+    let m = if as_set {
+        Mode::Set { set: unsafe { core::mem::transmute::<crate::hll::container::Container, crate::hll::hash_set::HashSet>(c) }, hll_type: t }
+    } else {
+        Mode::List { list: unsafe { core::mem::transmute::<crate::hll::container::Container, crate::hll::list::List>(c) }, hll_type: t }
+    };
+    (m, slots)
+}
+fn cr_check(slots: &[u32; 8]) {
+    let mut j = 0usize;
+    let mut i = 0;
+    while i < 8 {
+        if slots[i] != 0 {
+            assert!(j < 9 && unsafe { CR_REC[j] } == slots[i], "a coupon of the input sketch was not replayed into the union (or altered)");
+            j += 1;
+        }
+        i += 1;
+    }
+    assert!(unsafe { CR_N } == j, "the union received something that is not a coupon of the input");
+}
+
+//@ props: C03
+//@ tier: thorough
+//@ timeout: 1800
+//@ functions: hll::union::merge_coupons_into_gadget
+//@ functions: hll::union::merge_coupons_into_mode
+//@ functions: hll::container::Container::iter
+//@ stubs: HllSketch::update_with_coupon, Array8::update -> recorders
+//@ replay_stub: hll/sketch.rs | pub(super) fn update_with_coupon(&mut self, coupon: u32) { | if true { return crate::hll::union::verif_kani_hll_union::cr_update_with_coupon(self, coupon); }
+//@ replay_stub: hll/array8.rs | pub fn update(&mut self, coupon: u32) { | if true { return crate::hll::union::verif_kani_hll_union::cr_array8_update(self, coupon); }
+//@ bounds: a list-mode and a set-mode source whose 8-slot container has arbitrary contents (0 = empty slot, 0..=8 coupons, any u32 values); gadget / destination array at lg_k = 4
+//@ assumes: the receiving update() has the per-slot-maximum step semantics decided by C02's harnesses
+//@ desc: merge_coupons_into_gadget (coupon-mode input into a coupon- or array-mode union) and merge_coupons_into_mode (coupon-mode union content into the Hll8 array created when the first array-mode input arrives) hand every coupon of the source exactly once, unaltered, to the receiver and nothing else - for list and set sources
+#[kani::proof]
+#[kani::unwind(10)]
+#[kani::stub(HllSketch::update_with_coupon, cr_update_with_coupon)]
+#[kani::stub(Array8::update, cr_array8_update)]
+fn c03_union_coupon_replay_contract() {
+    let as_set: bool = kani::any();
+    let (m, slots) = cr_source(as_set);
+    let mut g = HllSketch::new(4, HllType::Hll8);
+    merge_coupons_into_gadget(&mut g, &m);
+    cr_check(&slots);
+    unsafe {
+        CR_N = 0;
+    }
+    let mut a = Array8::new(4);
+    merge_coupons_into_mode(&mut a, &m);
+    cr_check(&slots);
+    kani::cover!(as_set && unsafe { CR_N } == 8);
+    kani::cover!(!as_set && unsafe { CR_N } == 0);
+    core::mem::forget((m, g, a));
+}
